@@ -23,6 +23,7 @@ type Env struct {
 	site    *ssa.BasicBlock // program point of the clause (name resolution)
 	prevEnv *Env  // environment of the loop header (inside 'update' clauses: prev(e))
 	pre     State // heap at loop entry (inside loop clauses)
+	preMode bool  // evaluating inside pre(...): loop variables denote their values on loop entry
 	loopOrd int   // ordinal of the loop whose header names are in scope (0: none)
 }
 
@@ -172,6 +173,7 @@ func (env *Env) eval(x Expr) Val {
 			c := *env
 			if env.pre != nil {
 				c.st = env.pre
+				c.preMode = true
 			} else if env.old != nil {
 				c.st = env.old
 			}
@@ -594,6 +596,22 @@ func (env *Env) callSpec(n *ECall) Val {
 			}
 		}
 		fail("no field %s", fn.V)
+	case "hasType", "dyn":
+		// hasType(x, "*ssa.BinOp"): the dynamic type of interface value x; dyn(x, "*ssa.BinOp"): its payload
+		v := arg(0)
+		tn, ok := n.Args[1].(*EStr)
+		if !ok {
+			fail("%s(x, \"type\") expected", n.Fun)
+		}
+		ty := env.e.W.ResolveType(tn.V, env.pkg)
+		if ty == nil {
+			fail("unknown type %s", tn.V)
+		}
+		tid := env.e.W.TypeID(ty)
+		if n.Fun == "hasType" {
+			return Val{T: and(not(sx("=", v.T, "0")), sx("=", sx("itag", v.T), fmt.Sprint(tid))), Ty: tBool}
+		}
+		return Val{T: env.e.W.UF(fmt.Sprintf("unbox.%d", tid), []string{"Int"}, s.SortOf(ty), v.T), Ty: ty}
 	case "purecall":
 		// purecall("invoke:io/fs.DirEntry.IsDir", d): the uninterpreted function a pure library call is modelled by
 		nm, ok := n.Args[0].(*EStr)
